@@ -220,6 +220,11 @@ def main(argv=None):
             "dv_dt = -k*v + 3*g - h\ndabove_dt = Gt(v, th)\n")
     core.guarded(rep, text, check_text, rep, drv, rng, text)
     rep.case(key=text, nontrivial=True)
+    # a state derivative read by another state derivative directly (no intermediate in between), by two of them, and through a chain
+    for text in ("states(v=-1, w=0.5)\nparameters(eps=0.08, g=0.8, c=0.3)\ndv_dt = v - v**3/3 - w\ndw_dt = eps*(v - g*w) - c*dv_dt\n",
+                 "states(a=1, b=2, c=0.5)\nparameters(k=1.5)\nda_dt = -k*a + sin(b)\ndb_dt = a*c - 0.5*da_dt\ndc_dt = db_dt*da_dt - c\n"):
+        core.guarded(rep, text, check_text, rep, drv, rng, text)
+        rep.case(key=text, nontrivial=True)
     gen = lang.Gen(rng, max_depth=3, p_cond=0.15, funcs=["exp", "cos", "sin", "atan", "log", "sqrt", "abs", "tan"], allow_mod=False)
     n = a.n or (24 if a.tier == "quick" else 500)
     for i in range(n):
@@ -236,7 +241,7 @@ def main(argv=None):
     return rep.finish(
         level="proof",
         rule="chains of depth 1..33 (quick) / 1..45 (thorough) with names in and against dependency order, a chain of depth 1300 (3000) that hangs off one derivative, a model with dependency paths "
-             "of different lengths, random models with 2-8 intermediates in chain / diamond / fan-in / random shapes, conditionals 15%; two "
+             "of different lengths, two models in which state derivatives read state derivatives directly, random models with 2-8 intermediates in chain / diamond / fan-in / random shapes, conditionals 15%; two "
              "points each; non-trivial = more than one intermediate level",
         trusted_base=["Coq 8.16.1 kernel", "Coquelicot and the standard library reals (classical) for D_sound", "extraction + ocaml/driver.ml",
                       "sympy.lambdify and numpy as evaluators"],
